@@ -28,7 +28,9 @@ RULE = (
     "non-empty chunks x {byte stream honouring max_bytes, object stream} x every single "
     "call (receive n=0..4, receive_exactly n=0..5, receive_until with 3 delimiters x "
     "max_bytes 0..5) followed by a full drain, plus seeded call sequences of length 2-6 "
-    "with interleaved feed_data and seeded longer inputs; text: code points of 1-4 byte "
+    "with interleaved feed_data and seeded longer inputs, plus seeded histories in which "
+    "feed_data arrives while a call is suspended in the wrapped stream (judged by per-origin "
+    "conservation); text: code points of 1-4 byte "
     "classes x utf-8/16/32/latin-1 (+le/be variants) x every 1- and 2-cut split and "
     "seeded multi-cut splits, and TextSendStream->TextReceiveStream round trips of 1-4 "
     "sends re-chunked at every offset. Non-trivial = a call started with a non-empty "
@@ -263,6 +265,86 @@ async def run_buffered(case: dict, col) -> None:  # noqa: ANN001
         col.violation("buffered:" + clause, _jsonable(detail), case)
 
 
+async def run_buffered_midfeed(case: dict, col) -> None:  # noqa: ANN001
+    """feed_data() arriving WHILE a call on the wrapper is suspended in the wrapped stream's
+    receive() (another task / a callback feeding).  The relative order of the fed bytes and
+    the chunk being fetched is not determined then, so the oracle is conservation per origin:
+    source bytes (lower case / newline) come out in source order, fed bytes (upper case) in
+    feed order, nothing is lost or duplicated, sizes are respected."""
+    from anyio import DelimiterNotFound, EndOfStream, IncompleteRead
+    from anyio.streams.buffered import BufferedByteReceiveStream
+
+    HByte, HObj = _mk_streams()
+    data = bytes(case["data"], "latin-1")
+    chunks = cut(data, case["cuts"])
+    timeline = bytearray()
+    inner = (HByte if case["kind"] == "byte" else HObj)(chunks, timeline)
+    s = BufferedByteReceiveStream(inner)
+    fed = bytearray()
+    plan = {int(k): bytes(v, "latin-1") for k, v in case["midfeed"].items()}
+    orig_receive = inner.receive
+
+    async def receive_with_feed(*a):  # noqa: ANN002, ANN202
+        # (called by the wrapper; the feed happens while the wrapper's call is suspended)
+        d = plan.pop(inner.pulls, None)
+        if d and inner.chunks:
+            s.feed_data(d)
+            fed.extend(d)
+
+        return await orig_receive(*a)
+
+    inner.receive = receive_with_feed  # type: ignore[method-assign]
+    consumed = bytearray()
+    viol: list = []
+    calls = list(case["calls"]) + [["drain"]]
+    for call in calls:
+        op = call[0]
+        try:
+            if op == "receive":
+                r = await s.receive(call[1])
+                if not 1 <= len(r) <= call[1]:
+                    viol.append(("receive-size", {"n": call[1], "got": r}))
+
+                consumed += r
+            elif op == "exactly":
+                r = await s.receive_exactly(call[1])
+                if len(r) != call[1]:
+                    viol.append(("exactly-wrong", {"n": call[1], "got": r}))
+
+                consumed += r
+            elif op == "until":
+                d = bytes(call[1], "latin-1")
+                r = await s.receive_until(d, call[2])
+                if d in r:
+                    viol.append(("until-wrong-result", {"delim": d, "got": r}))
+
+                consumed += r + d
+            elif op == "drain":
+                for _ in range(len(data) + 200):
+                    r = await s.receive(3)
+                    if not 1 <= len(r) <= 3:
+                        viol.append(("receive-size", {"n": 3, "got": r}))
+                        break
+
+                    consumed += r
+        except (EndOfStream, IncompleteRead, DelimiterNotFound, ValueError):
+            pass
+
+    src_out = bytes(b for b in consumed if not 65 <= b <= 90)
+    fed_out = bytes(b for b in consumed if 65 <= b <= 90)
+    if src_out != data or fed_out != bytes(fed):
+        viol.append(("midfeed:bytes-lost-duplicated-or-reordered",
+                     {"source": data, "source_out": src_out, "fed": bytes(fed), "fed_out": fed_out}))  # fmt: skip
+
+    col.case([case], bool(fed), sample=case)
+    col.count("buffered_midfeed_cases")
+    if fed:
+        col.count("window:feed_data_during_suspended_call")
+
+    for clause, detail in viol:
+        col.violation("buffered:" + clause, _jsonable(detail), case)
+
+
 def _jsonable(d):  # noqa: ANN001, ANN202
     if isinstance(d, dict):
         return {k: _jsonable(v) for k, v in d.items()}
@@ -316,6 +398,18 @@ def buffered_cases(tier: str, seed: int):  # noqa: ANN201
                         calls = [random_call(rng) for _ in range(rng.randrange(2, 7))]
                         yield {"t": "buf", "data": data, "cuts": list(cuts), "kind": kind,
                                "calls": calls}  # fmt: skip
+
+    # feed_data() while a call is suspended in the wrapped stream
+    for _ in range(20000 if tier == "thorough" else 2500):
+        ln = rng.randrange(1, 14)
+        data = "".join(rng.choice("aab\n") for _ in range(ln))
+        cuts = sorted(rng.sample(range(1, ln), rng.randrange(0, min(ln - 1, 5)))) if ln > 1 else []
+        calls = [c for c in (random_call(rng) for _ in range(rng.randrange(1, 6)))
+                 if c[0] != "feed" and not (c[0] == "receive" and c[1] < 1)]  # fmt: skip
+        midfeed = {str(rng.randrange(0, 5)): "".join(rng.choice("XYZ") for _ in range(rng.randrange(1, 4)))
+                   for _ in range(rng.randrange(1, 3))}  # fmt: skip
+        yield {"t": "bufmid", "data": data, "cuts": cuts, "kind": rng.choice(["byte", "obj"]),
+               "calls": calls, "midfeed": midfeed}  # fmt: skip
 
     for _ in range(60000 if tier == "thorough" else 6000):
         ln = rng.randrange(6, 40)
@@ -511,6 +605,8 @@ def all_cases(tier: str, seed: int):  # noqa: ANN201
 async def run_case(case: dict, col) -> None:  # noqa: ANN001
     if case["t"] == "buf":
         await run_buffered(case, col)
+    elif case["t"] == "bufmid":
+        await run_buffered_midfeed(case, col)
     elif case["t"] == "trecv":
         await run_text_receive(case, col)
     else:
@@ -542,6 +638,7 @@ def replay(case: dict, col) -> None:  # noqa: ANN001
 
 
 def finish(col, tier: str) -> None:  # noqa: ANN001
-    for k in ("buffered_cases", "text_receive_cases", "text_roundtrip_cases"):
+    for k in ("buffered_cases", "text_receive_cases", "text_roundtrip_cases",
+              "window:feed_data_during_suspended_call"):  # fmt: skip
         if not col.counters.get(k):
             col.inconclusive_because(f"no {k} executed")
